@@ -11,7 +11,7 @@ From Coq Require Import List Bool Arith Ascii String NArith Permutation Sorted.
 From UV.Base Require Import Order SortUniq Res.
 From UV.Py Require Import PyStr.
 From UV.Schemes Require Import Common Generic LegacyOpenssl Gentoo GentooProofs Debian DebianProofs Semver SemverProofs Gem GemProofs Rpm RpmProofs Arch ArchProofs Openssl.
-From UV.Schemes Require Import Pypi.
+From UV.Schemes Require Import Pypi Nuget NugetConanProofs NugetOrder.
 From UV.Ref Require Pep440.
 Import ListNotations.
 
@@ -100,6 +100,12 @@ Proof. split; [exact ossl_tpo|exact ossl_ops_spec]. Qed.
 Theorem C01_pypi : TPO Pep440.pep_cmp /\ forall a b, pypi_ops a b = ops_of (Pep440.pep_cmp a b).
 Proof. split; [exact pypi_tpo|reflexivity]. Qed.
 
+(* nuget: on every version the constructor builds, the code's comparison is the order on (four numbers, label key) *)
+Theorem C01_nuget :
+  TPO nuget_order /\ (forall a b, nu_ok a = true -> nu_ok b = true -> nuget_cmp a b = nuget_order a b) /\
+  (forall s v, nuget_ctor s = Ok v -> nu_ok v = true).
+Proof. split; [exact nuget_order_tpo|]. split; [exact nuget_cmp_order|exact nuget_ctor_ok]. Qed.
+
 (* Non-vacuity: accepted versions have the shape the theorems need, and the orders are not trivial *)
 Example C01_nonvacuous :
   gok (list_ascii_of_string "1.02_alpha1_p-r3") = true /\
@@ -124,3 +130,4 @@ Print Assumptions C01_rpm.
 Print Assumptions C01_alpm.
 Print Assumptions C01_openssl.
 Print Assumptions C01_pypi.
+Print Assumptions C01_nuget.
